@@ -47,10 +47,17 @@ def _second_opinion(prop: str, tier: str, mod, ctx: Ctx) -> None:
     except Exception as e:  # noqa: BLE001 - the second opinion is optional
         ctx.note("inlined_view", f"not available: {type(e).__name__}: {e}")
         return
+    import re as _re
+
+    def base_key(o) -> tuple[str, str]:
+        # sites with the same text are told apart by an ordinal (" #2"); ordinals of the two views need not line up, so the
+        # comparison is made on the family of all sites with that text
+        return (o.rule, _re.sub(r" #\d+$", "", o.construct))
+
     by_key: dict[tuple[str, str], list] = {}
     by_rule: dict[str, list] = {}
     for o in ctx_b.obligations:
-        by_key.setdefault(o.key(), []).append(o)
+        by_key.setdefault(base_key(o), []).append(o)
         by_rule.setdefault(o.rule, []).append(o)
 
     def b_ok(o) -> bool:
@@ -64,7 +71,7 @@ def _second_opinion(prop: str, tier: str, mod, ctx: Ctx) -> None:
             print(f"  [inlined view] ANALYSIS-ERROR {e}")
     cleared = 0
     for o in failing:
-        same = by_key.get(o.key())
+        same = by_key.get(base_key(o))
         if same is not None:
             if all(b_ok(x) for x in same):
                 o.ok = True
